@@ -14,7 +14,10 @@ Line protocol for C05 (reactions conserve atoms and mass and convert exactly X).
   par|ser|sys <name> <member,..>    → `ok` or `err=<class>`
   call <name> arr rows=<rows>       → `out=<rows> exact=<0|1> tag=<clean|clamp> negsum=<q>` or `err=<class> negsum=<q>`
   call <name> stream pkg=<k> ph=<chars> rows=<rows>   → likewise
-  (… mode=force on a call line: `force_reaction` instead of `__call__`)
+  (… mode=force on a call line: `force_reaction` instead of `__call__`; mode=nocheck: `__call__` with
+   `tmo.reaction.CHECK_FEASIBILITY = False`, the same code path)
+  call <name> view sel=<mol|mass> ph=<chars> rows=<mol rows>   → likewise (a view of a stream handed as array)
+  sys <name> <members> [basis=…]    members may be systems themselves (flattened)
 
 rows are `q,q,..;q,q,..` (one group per phase row).
 -/
@@ -196,19 +199,28 @@ def sameConfig (es : List Entry) : Except Err (Basis × List Nat × List Nat × 
 
 /-- a `ReactionSystem` is looked at through its references: the members as they are *now*
 (stoichiometry and basis; `member.basis = …` may have been used after the system was built) -/
+def St.currentAux (st : St) : Nat → Entry → Option (List Member × List Basis × Bool)
+  | 0, _ => none
+  | fuel + 1, e =>
+    if e.members.isEmpty then
+      match e.o.kind with
+      | .member (.single rx) => some ([.single rx], [e.o.basis], e.ex)   -- a plain Reaction: basis as it is now
+      | .member m => some ([m], [], e.ex)                                   -- a set keeps its label
+      | .system ms => some (ms, [], e.ex)
+    else
+      -- a (possibly nested) ReactionSystem: its members one after the other, i.e. the flattened list;
+      -- every level re-checks the basis of its members (the label of a nested system is its own basis)
+      match e.members.mapM st.obj with
+      | none => none
+      | some es =>
+        (es.mapM (st.currentAux fuel)).map fun parts =>
+          (parts.flatMap (·.1), e.o.basis :: parts.flatMap (·.2.1), parts.all (·.2.2))
+
 def St.current (st : St) (e : Entry) : Entry :=
   if e.members.isEmpty then e else
-  match e.members.mapM st.obj with
+  match st.currentAux 8 e with
   | none => e
-  | some es =>
-    match es.mapM (fun m => match m.o.kind with | .member k => some k | .system _ => none) with
-    | none => e
-    | some ms =>
-      -- only plain `Reaction` members can change their basis; sets keep the label they were built with
-      let bases := es.filterMap fun m => match m.o.kind with
-        | .member (.single _) => some m.o.basis
-        | _ => none
-      { e with o := { e.o with kind := .system ms, memberBases := bases }, ex := es.all (·.ex) }
+  | some (ms, bases, ex) => { e with o := { e.o with kind := .system ms, memberBases := bases }, ex := ex }
 
 def callLine (o : RObj) (nuEx : Bool) (mat : Material) (flatIn : Vec) (streamWt : Bool)
     (force : Bool := false) : String :=
@@ -331,7 +343,50 @@ def step (st : St) (line : String) : St × String :=
           (st.put name { o := o', bal := e.bal, ex := false }, showRxn o' rx' e.bal false)
       | _ => (st, "bad-op")
     | _, _ => (st, "bad-op")
-  | [op, name, ms0] =>
+  | "call" :: name :: "arr" :: rest =>
+    match st.obj name, (kv rest "rows").bind parseRows with
+    | none, _ => (st, "noref")
+    | some e0, some rows =>
+      let e := st.current e0
+      (st, callLine e.o e.ex (.array rows) rows.flatten false (kv rest "mode" == some "force" || kv rest "mode" == some "nocheck"))
+    | _, _ => (st, "bad-op")
+  | "call" :: name :: "view" :: rest =>
+    -- a flow array that is a view of a stream of the object's own package: `stream.mol` / `imol.data`
+    -- (sel=mol) or `stream.mass` / `imass.data` (sel=mass, written back through the view); the array
+    -- path reacts the entries as they are, whatever the basis label of the object
+    match st.obj name, (kv rest "sel").bind (fun s => if s == "mol" then some Basis.mol else if s == "mass" then some Basis.wt else none),
+          kv rest "ph", (kv rest "rows").bind parseRows with
+    | none, _, _, _ => (st, "noref")
+    | some e0, some sel, some ph, some rows =>
+      let e := st.current e0
+      match phaseTuple ph.toList with
+      | .error _ => (st, "bad-op")
+      | .ok phases =>
+        let o := { e.o with basis := sel }
+        if rows.length != phases.length || !(rows.all (·.length == o.pkg.length)) then (st, "bad-op") else
+        -- the phase check of the stream path does not apply to a bare array: hand the object's own phases
+        let phs := if o.phases.isEmpty then phases.take 1 else o.phases
+        if phs.length != rows.length then (st, "bad-op") else
+        (st, callLine o e.ex (.stream phs o.pkg rows) rows.flatten (sel == .wt)
+          (kv rest "mode" == some "force" || kv rest "mode" == some "nocheck"))
+    | _, _, _, _ => (st, "bad-op")
+  | "call" :: name :: "stream" :: rest =>
+    match st.obj name, (kv rest "pkg").bind (·.toNat?) |>.bind st.pkg, kv rest "ph",
+          (kv rest "rows").bind parseRows with
+    | some e0, some pk, some ph, some rows =>
+      let e := st.current e0
+      match phaseTuple ph.toList with
+      | .error _ => (st, "bad-op")
+      | .ok phases =>
+        if rows.length != phases.length || !(rows.all (·.length == pk.ids.length)) then (st, "bad-op") else
+        let o := e.o
+        let flatIn := match (if pk.ids == o.pkg then .ok rows else remapRows pk.ids o.pkg rows) with
+          | .ok r => r.flatten | .error _ => []
+        (st, callLine o e.ex (.stream phases pk.ids rows) flatIn (o.basis == .wt)
+          (kv rest "mode" == some "force" || kv rest "mode" == some "nocheck"))
+    | none, _, _, _ => (st, "noref")
+    | _, _, _, _ => (st, "bad-op")
+  | op :: name :: ms0 :: _ =>
     if op == "par" || op == "ser" || op == "sys" then
       match members st (splitComma ms0) with
       | none => (st, "noref")
@@ -342,9 +397,10 @@ def step (st : St) (line : String) : St × String :=
           let bal := es.all (·.bal)
           let ex := es.all (·.ex)
           if op == "sys" then
-            let msO := es.mapM fun e => match e.o.kind with
-              | .member m => some m
-              | .system _ => none
+            -- a member that is itself a system contributes its members (applied one after the other)
+            let msO : Option (List Member) := some (es.flatMap fun e => match e.o.kind with
+              | .member m => [m]
+              | .system ms => ms)
             match msO with
             | none => (st, "bad-op")
             | some ms =>
@@ -360,29 +416,6 @@ def step (st : St) (line : String) : St × String :=
               let m := if op == "par" then Member.parallel rxs else Member.series rxs
               (st.put name { o := { kind := .member m, basis, phases, pkg, mw }, bal, ex }, "ok")
     else (st, "bad-op")
-  | "call" :: name :: "arr" :: rest =>
-    match st.obj name, (kv rest "rows").bind parseRows with
-    | none, _ => (st, "noref")
-    | some e0, some rows =>
-      let e := st.current e0
-      (st, callLine e.o e.ex (.array rows) rows.flatten false (kv rest "mode" == some "force"))
-    | _, _ => (st, "bad-op")
-  | "call" :: name :: "stream" :: rest =>
-    match st.obj name, (kv rest "pkg").bind (·.toNat?) |>.bind st.pkg, kv rest "ph",
-          (kv rest "rows").bind parseRows with
-    | some e0, some pk, some ph, some rows =>
-      let e := st.current e0
-      match phaseTuple ph.toList with
-      | .error _ => (st, "bad-op")
-      | .ok phases =>
-        if rows.length != phases.length || !(rows.all (·.length == pk.ids.length)) then (st, "bad-op") else
-        let o := e.o
-        let flatIn := match (if pk.ids == o.pkg then .ok rows else remapRows pk.ids o.pkg rows) with
-          | .ok r => r.flatten | .error _ => []
-        (st, callLine o e.ex (.stream phases pk.ids rows) flatIn (o.basis == .wt)
-          (kv rest "mode" == some "force"))
-    | none, _, _, _ => (st, "noref")
-    | _, _, _, _ => (st, "bad-op")
   | _ => (st, "bad-op")
 
 def main : IO Unit := Driver.loop ({} : St) step
